@@ -40,7 +40,7 @@ Wave 12 (C08, C12, C16, C19, two changes each): 8 kept; all 8 caught by the prop
 check written as `offset + size > canvas`) at first only through its broken kernel theorem (Tie A part 2), i.e. reported with `no-failing-input-found`, because
 no generator offered a rectangle setter a value near `u32::MAX`; the generators now do, and the re-evaluation reports the overflow panic with its operation
 sequence.  This is the first seeded change that the translated-kernel theorems caught BEFORE the differential harness did.
-Wave 13 (C01, C02, C06, C07; the C07 agent delivered nothing in time, the C01 agent one change — three more candidates of its were caught by the crate's own tests): 5 kept;
+Wave 13 (C01, C02, C06, C07; the C07 agent delivered after the evaluation window had closed — two non-termination changes in `stream.rs`, NOT evaluated and not kept: (1) the flush block of the `Type` arm records the new chunk type only when it is not IDAT / fdAT, so an IDAT directly followed by an fdAT (or the reverse) is flushed forever with `(0, ImageDataFlushed)`; (2) `buf_avail` in `ReadChunkData` computed from `min(capacity, max(limits.bytes, CHUNK_BUFFER_SIZE))`, so a caller limit between 32 KiB and the chunk length makes `ReadChunkData` / `ParseChunkData` alternate forever — both are for the next session to rebuild and run against C07; the C01 agent one change — three more candidates of its were caught by the crate's own tests): 5 kept;
 2 caught by the property's own check at first evaluation.  The three others each exposed a gap: C06_11 (inflater output buffer sized from the header at once) made the C06 check
 END with an infrastructure error — the mutant asked for 3.3 TB and the runtime aborted the harness; an allocator abort under C06 is now a reported violation with the
 running case as replay.  C02_12 (a stale previous row after a failed frame) needs a failed frame followed by a frame of ANOTHER width and the call sequence
